@@ -292,6 +292,23 @@ fn parse_fams(s: &str) -> Option<Vec<Fam>> {
 
 /// OPEN with optional 4-octet capability and ADD-PATH capabilities (each a list of (fam, dir)),
 /// laid out one capability per parameter or all in one
+/// The same capabilities in another legal arrangement of Optional Parameters, chosen by the content (so that the
+/// generators stay functions of their PRNG draws): an EMPTY Capabilities parameter (`02 00`, RFC 5492 allows a
+/// parameter to list no capability) first / in the middle / last, or an unrelated parameter type first. The derived
+/// configuration depends on the capabilities the OPEN carries, not on where they sit (round-6 seed: a hand-written
+/// `capabilities()` iterator that ended at the first empty parameter).
+fn vary_layout(mut params: Vec<(u8, Vec<u8>)>) -> Vec<(u8, Vec<u8>)> {
+    let h: usize = params.iter().flat_map(|(_, v)| v.iter()).fold(params.len() * 7, |a, b| (a * 31 + *b as usize) % 1009);
+    match h % 6 {
+        0 => params.insert(0, (2, vec![])),
+        1 => { let at = params.len() / 2; params.insert(at, (2, vec![])); }
+        2 => params.push((2, vec![])),
+        3 => params.insert(0, (1, vec![0, 1, 2])),
+        _ => {}
+    }
+    params
+}
+
 pub fn mk_open(four: bool, aps: &[Vec<(Fam, u8)>], one_param: bool, extra_mp: bool) -> Vec<u8> {
     let mut caps: Vec<Vec<u8>> = vec![];
     if extra_mp { caps.push(vec![1, 4, 0, 1, 0, 1]); }
@@ -304,7 +321,7 @@ pub fn mk_open(four: bool, aps: &[Vec<(Fam, u8)>], one_param: bool, extra_mp: bo
     let params: Vec<(u8, Vec<u8>)> = if one_param {
         if caps.is_empty() { vec![] } else { vec![(2, caps.concat())] }
     } else { caps.into_iter().map(|c| (2, c)).collect() };
-    RefOpen { ver: 4, asn2: 23456, ht: 90, id: [10, 0, 0, 9], params }.encode()
+    RefOpen { ver: 4, asn2: 23456, ht: 90, id: [10, 0, 0, 9], params: vary_layout(params) }.encode()
 }
 
 /// OPEN whose ADD-PATH capabilities are given as raw values (any length, any direction octet)
@@ -316,7 +333,7 @@ pub fn mk_open_raw(four: bool, ap_vals: &[Vec<u8>], one_param: bool, extra_mp: b
     let params: Vec<(u8, Vec<u8>)> = if one_param {
         if caps.is_empty() { vec![] } else { vec![(2, caps.concat())] }
     } else { caps.into_iter().map(|c| (2, c)).collect() };
-    RefOpen { ver: 4, asn2: 23456, ht: 90, id: [10, 0, 0, 9], params }.encode()
+    RefOpen { ver: 4, asn2: 23456, ht: 90, id: [10, 0, 0, 9], params: vary_layout(params) }.encode()
 }
 
 /// an ADD-PATH capability value that `from_octets` may let through although it is not well-formed
